@@ -32,7 +32,7 @@ func (c13) Assumptions() []string {
 	}
 }
 func (c13) Probes() []string {
-	return []string{"pool/cross-task-reuse", "pool/prefill-consumed", "pool/poison-verified", "sched/uniform", "sched/sticky", "sched/roundrobin", "sched/onput", "sched/onget", "sched/pct", "get/lifo", "get/fifo", "get/random", "prior-instances", "tasks/reader", "tasks/writer", "tasks/with-own-fault", "preempt-while-holding", "procs/cases", "procs/twin-shapes-in-one-process"}
+	return []string{"pool/cross-task-reuse", "pool/prefill-consumed", "pool/poison-verified", "sched/uniform", "sched/sticky", "sched/roundrobin", "sched/onput", "sched/onget", "sched/pct", "get/lifo", "get/fifo", "get/random", "prior-instances", "tasks/reader", "tasks/writer", "tasks/with-own-fault", "tasks/reader-mode-count", "tasks/reader-mode-abandon", "tasks/writer-abandoned-without-Close", "preempt-while-holding", "procs/cases", "procs/twin-shapes-in-one-process"}
 }
 func (c13) Runs(tier string) int {
 	if tier == "thorough" {
@@ -59,8 +59,19 @@ func c13Task(r *core.Rng, tier string) core.TaskSpec {
 	if r.Chance(1, 3) {
 		t.Kind = "reader"
 		t.SourceKind = []string{"rs", "rsb", "rsx", "rsf"}[r.Intn(4)]
-	} else if r.Chance(1, 2) {
-		t.SinkKind = "wx"
+		// one reader in four is used differently from the documented loop (all are legal histories)
+		if r.Chance(1, 4) {
+			t.ReadMode = []string{"count", "alt", "abandon"}[r.Intn(3)]
+		}
+	} else {
+		if r.Chance(1, 2) {
+			t.SinkKind = "wx"
+		}
+		// one writer in eight is abandoned without Close
+		if r.Chance(1, 8) && len(w.Ops) > 0 && w.Ops[len(w.Ops)-1].K == "close" {
+			w.Ops = w.Ops[:len(w.Ops)-1]
+			t.NoClose = true
+		}
 	}
 	// one instance in five meets a fault of its own (error paths release buffers too);
 	// its solo reference runs with the same fault plan
@@ -150,6 +161,12 @@ func (p c13) Run(runseed uint64, tier string, acc *Acc) []*core.Violation {
 		if t.SinkFault != nil || t.SrcFault != nil {
 			acc.Inc("tasks/with-own-fault")
 		}
+		if t.ReadMode != "" {
+			acc.Inc("tasks/reader-mode-" + t.ReadMode)
+		}
+		if t.NoClose {
+			acc.Inc("tasks/writer-abandoned-without-Close")
+		}
 	}
 	if len(c.Pool.Prior) > 0 {
 		acc.Inc("prior-instances")
@@ -209,7 +226,7 @@ func c13Reference(t *core.TaskSpec) (*c13Ref, error) {
 				return nil, fmt.Errorf("reference writer run panicked")
 			}
 		}
-		if sink.Fired == 0 && (wr.Failed() != nil || !wr.Closed) {
+		if sink.Fired == 0 && (wr.Failed() != nil || (!wr.Closed && !t.NoClose)) {
 			return nil, fmt.Errorf("reference writer run failed without a fault")
 		}
 		return ref, nil
@@ -223,7 +240,7 @@ func c13Reference(t *core.TaskSpec) (*c13Ref, error) {
 	ref.file = sink.Data
 	src := core.NewSource(ref.file, nil, t.SrcFault)
 	src.MaxCalls = 400000 + 400*len(ref.file)
-	ref.read = core.ExecReader(t.W.Shape, src.AsReadSeeker(kindOr(t.SourceKind)), 1<<20, nil)
+	ref.read = core.ExecReaderMode(t.W.Shape, src.AsReadSeeker(kindOr(t.SourceKind)), 1<<20, nil, t.ReadMode)
 	if ref.read.Panic != "" || ref.read.Hang || (src.Stats.Fired == 0 && ref.read.Reported()) {
 		return nil, fmt.Errorf("reference reader run failed")
 	}
@@ -302,7 +319,7 @@ func (p c13) exec(c *core.Case) (*c13Result, error) {
 		} else {
 			src := core.NewSource(priorFiles[i], nil, t.SrcFault)
 			src.MaxCalls = 400000 + 400*len(priorFiles[i])
-			core.ExecReader(t.W.Shape, src.AsReadSeeker(kindOr(t.SourceKind)), 1<<20, nil)
+			core.ExecReaderMode(t.W.Shape, src.AsReadSeeker(kindOr(t.SourceKind)), 1<<20, nil, t.ReadMode)
 		}
 	}
 
@@ -323,7 +340,7 @@ func (p c13) exec(c *core.Case) (*c13Result, error) {
 			src := core.NewSource(refs[i].file, nil, t.SrcFault)
 			src.Yield = func() { sched.Yield("source") }
 			fns = append(fns, func() {
-				rres[i] = core.ExecReader(t.W.Shape, src.AsReadSeeker(kindOr(t.SourceKind)), 2*len(refs[i].read.Recs)+16, func(string) { sched.Yield("api") })
+				rres[i] = core.ExecReaderMode(t.W.Shape, src.AsReadSeeker(kindOr(t.SourceKind)), 2*len(refs[i].read.Recs)+16, func(string) { sched.Yield("api") }, t.ReadMode)
 			})
 			expected += 40 * len(refs[i].file)
 		}
